@@ -747,7 +747,19 @@ def run(tier, seed):
     import time
     t0 = time.time()
     chk.log(f"build phase done at {t0 - chk.t0:.0f}s")
-    cases = gen_cases(tier, seed)
+    # calibration: bytes of overhead between a loop / branch body and its u16 offset field
+    cal = calibration_cases()
+    okc, resc = run_harness(binp, cal, "cal", shards=4)
+    try:
+        if not okc:
+            raise ValueError("calibration probes crashed the harness")
+        ovh = calibrate(resc)
+        chk.oblige("corr:size calibration (filler statements compile to 6/3/2 bytes; offset = body + fixed overhead)", True)
+    except ValueError as e:
+        chk.oblige("corr:size calibration", False, str(e))
+        chk.log(f"calibration failed: {e}")
+        ovh = {k: 12 for k in list(LOOP_KINDS) + list(FWD_KINDS)}
+    cases = gen_cases(tier, seed, ovh)
     ok, res = run_harness(binp, cases, "a")
     chk.log(f"harness pass 1: {len(cases)} cases, {time.time() - t0:.0f}s")
     if not ok:
@@ -768,21 +780,25 @@ def run(tier, seed):
     outcomes = {"parse-rejected": 0, "compile-error": 0, "compiled": 0, "panic": 0}
     failures = []       # (size, case index, what, detail)
     jump_offsets = []
+    miscal = []
     other_panics = []
     run_fail = {}        # case index -> internal fault observed when the program was run
     known_wf = set()     # cases whose chunk the verifier rejects and that lie in a known class
     for i, (c, r) in enumerate(zip(cases, res)):
         dist[c["origin"]] = dist.get(c["origin"], 0) + 1
+        exp = c.get("expect")
+        if exp and not (("compile" in r and exp == "compile-error") or ("img" in r and exp == "compiled")):
+            got = "parser rejects it" if "parse" in r else "panic" if "panic" in r else \
+                "compile error: " + r.get("msg", "")[:120] if "compile" in r else "compiled silently"
+            if "panic" not in r:       # panics are reported below
+                failures.append((len(c["src"]), i, "limit-not-reported" if exp == "compile-error" else "unexpected-rejection",
+                                 {"expected": exp, "got": got, "intended_offset": c.get("intended")}))
         if "parse" in r:
             outcomes["parse-rejected"] += 1
             continue
         if "panic" in r:
             outcomes["panic"] += 1
-            k = known_class(c, r, "panic")
-            if k:
-                chk.known(KNOWN_TEXT[k])
-            else:
-                failures.append((len(c["src"]), i, "panic", {"panic": r["panic"], "at": r.get("at"), "stage": r.get("stage")}))
+            failures.append((len(c["src"]), i, "panic", {"panic": r["panic"], "at": r.get("at"), "stage": r.get("stage")}))
             continue
         if "compile" in r:
             outcomes["compile-error"] += 1
@@ -800,11 +816,7 @@ def run(tier, seed):
         elif ok2:
             imgs.add("other-process:" + json.dumps(res2[j])[:80])
         if len(imgs) > 1:
-            k = known_class(c, r, "nondet")
-            if k:
-                chk.known(KNOWN_TEXT[k])
-            else:
-                failures.append((len(c["src"]), i, "nondeterministic", {"images": sorted(imgs)}))
+            failures.append((len(c["src"]), i, "nondeterministic", {"images": sorted(imgs)}))
         # running: internal faults
         rr = r.get("run")
         if rr:
@@ -825,12 +837,15 @@ def run(tier, seed):
                     chk.known(KNOWN_TEXT[k])
                 else:
                     failures.append((len(c["src"]), i, "clause5", {"problems": p5[:5]}))
-        if c["origin"] == "jump-scaled":
-            offs = [ins[2].get("offset", ins[2].get("jump_offset", 0)) for ins in r.get("instrs", [])
-                    if ins[1] in ("Jump", "JumpBack", "JumpIfFalse", "JumpIfTrue", "IterNext")]
+        if c["origin"] == "jump-scaled" and c.get("intended"):
+            names = ("JumpBack",) if c["kind"] == "back" else ("JumpIfFalse", "Function")
+            offs = [ins[2].get("offset", ins[2].get("size")) for ins in r.get("instrs", []) if ins[1] in names]
             if offs:
-                jump_offsets.append(max(offs))
+                jump_offsets.append(f"{c['tag'].split('-')[0]}:{max(offs)}")
+                if max(offs) != c["intended"] and c["intended"] <= 65535:
+                    miscal.append(f"{c['tag']}: offset {max(offs)}")
 
+    chk.oblige("corr:size-scaled programs hit the intended u16 offsets exactly", not miscal, "; ".join(miscal[:5]))
     chk.log(f"D-predicates done at {time.time() - t0:.0f}s")
     # ---- model on the real bytes
     disagreements = []
@@ -899,7 +914,7 @@ def run(tier, seed):
         for f in failures:
             kinds[f[2]] = kinds.get(f[2], 0) + 1
         chk.violation("input", {"kind": "input", "src": cases[i]["src"], "origin": cases[i]["origin"],
-                                "tag": cases[i].get("tag"), "clause_failed": what, "detail": detail,
+                                "tag": cases[i].get("tag"), "expect": cases[i].get("expect"), "clause_failed": what, "detail": detail,
                                 "others": kinds, "how_to_rerun": "./check C05 --replay <this file>"})
         chk.log(f"{len(failures)} inputs violate C05 ({kinds}); smallest ({what}): {cases[i]['src'][:200]!r} {json.dumps(detail)[:300]}")
     broken = [o for o in chk.obligations if not o[1]]
@@ -931,7 +946,8 @@ def run(tier, seed):
         trusted_base=tb,
         extra={"distribution": dist, "outcomes": outcomes, "exhaustive": False,
                "chunks_decoded_and_verified": len(todo), "decoder_disagreements": len(disagreements),
-               "largest_jump_offsets_reached": sorted(set(jump_offsets))[-12:],
+               "u16_offsets_reached_exactly": sorted(set(jump_offsets)),
+               "offset_overhead_bytes": ovh,
                "cross_process_determinism_checked": len(compiled) if ok2 else 0,
                "vm_panics_outside_c05_fault_list": sorted(set(other_panics))[:20]})
 
@@ -950,6 +966,11 @@ def replay(path, args):
     r = res[0]
     print(json.dumps({k: v for k, v in r.items() if k not in ("bytes", "instrs")})[:2000])
     bad = []
+    exp = data.get("expect")
+    if exp == "compile-error" and "img" in r:
+        bad.append("a program exceeding a size limit compiled silently (expected a compile error)")
+    if exp == "compiled" and "img" not in r and "panic" not in r:
+        bad.append(f"a program within the limits was rejected: {r.get('msg', 'parse error')[:200]}")
     if "panic" in r and not known_class(case, r, "panic"):
         bad.append("panic while compiling")
     if "img" in r:
